@@ -100,11 +100,15 @@ def prefix_sid(tokeniser: Any) -> PrefixSid:  # noqa: C901
     value = tokeniser()
     get_range = False
     consume_extra = False
+    label_sid = ''
+    base = srange = ''
     try:
         if value == '[':
             label_sid = tokeniser()
             while True:
                 value = tokeniser()
+                if not value:
+                    raise ValueError("missing closing ']'")
                 if value == '[':
                     consume_extra = True
                     continue
@@ -113,6 +117,8 @@ def prefix_sid(tokeniser: Any) -> PrefixSid:  # noqa: C901
                 if value == '(':
                     while True:
                         value = tokeniser()
+                        if not value:
+                            raise ValueError("missing closing ')'")
                         if value == ')':
                             break
                         if value == ',':
@@ -133,8 +139,11 @@ def prefix_sid(tokeniser: Any) -> PrefixSid:  # noqa: C901
     except Exception as e:
         raise ValueError(f'could not parse BGP PrefixSid attribute: {e}') from None
 
-    if int(label_sid) < pow(2, 32):
-        sr_attrs.append(SrLabelIndex.make_labelindex(int(label_sid)))
+    if not (label_sid.isascii() and label_sid.isdigit()):
+        raise ValueError(f"'{label_sid}' is not a valid label index\n  Format: [ <32 bits number> ] or [ <number>, [ ( <base>,<range> ) ] ]")
+    if int(label_sid) >= pow(2, 32):
+        raise ValueError(f'label index {label_sid} out of range\n  Must be 0 to {pow(2, 32) - 1}')
+    sr_attrs.append(SrLabelIndex.make_labelindex(int(label_sid)))
 
     for srgb in srgb_data:
         if len(srgb) == SRGB_TUPLE_SIZE and int(srgb[0]) < pow(2, 24) and int(srgb[1]) < pow(2, 24):
@@ -154,11 +163,11 @@ def prefix_sid(tokeniser: Any) -> PrefixSid:  # noqa: C901
 def prefix_sid_srv6(tokeniser: Any) -> PrefixSid:
     value = tokeniser()
     if value != '(':
-        raise Exception(f"expect '(', but received '{value}'")
+        raise ValueError(f"expect '(', but received '{value}'")
 
     service_type = tokeniser()
     if service_type not in ['l3-service', 'l2-service']:
-        raise Exception(f"expect 'l3-service' or 'l2-service', but received '{value}'")
+        raise ValueError(f"expect 'l3-service' or 'l2-service', but received '{value}'")
 
     sid = IPv6.unpack_ipv6(IPv6.pton(tokeniser()))
     behavior = 0xFFFF
@@ -168,6 +177,8 @@ def prefix_sid_srv6(tokeniser: Any) -> PrefixSid:
     if value != ')':
         base = 10 if not value.startswith('0x') else 16
         behavior = int(value, base)
+        if not 0 <= behavior <= 0xFFFF:
+            raise ValueError(f'endpoint behavior {value} out of range\n  Must be 0 to 0xFFFF')
         value = tokeniser()
         if value == '[':
             values = []
@@ -175,14 +186,16 @@ def prefix_sid_srv6(tokeniser: Any) -> PrefixSid:
                 if i != 0:
                     value = tokeniser()
                     if value != ',':
-                        raise Exception(f"expect ',', but received '{value}'")
+                        raise ValueError(f"expect ',', but received '{value}'")
                 value = tokeniser()
                 base = 10 if not value.startswith('0x') else 16
                 values.append(int(value, base))
 
             value = tokeniser()
             if value != ']':
-                raise Exception(f"expect ']', but received '{value}'")
+                raise ValueError(f"expect ']', but received '{value}'")
+            if any(not 0 <= _ <= 0xFF for _ in values):
+                raise ValueError(f'SID structure {values} out of range\n  Each length is one byte (0 to 255)')
 
             value = tokeniser()
 
@@ -199,7 +212,7 @@ def prefix_sid_srv6(tokeniser: Any) -> PrefixSid:
     )
 
     if value != ')':
-        raise Exception(f"expect ')', but received '{value}'")
+        raise ValueError(f"expect ')', but received '{value}'")
 
     if service_type == 'l3-service':
         return PrefixSid([Srv6L3Service(subtlvs=subtlvs)])
